@@ -47,6 +47,7 @@ impl Counters {
         self.add("fault.fn_suspend_selfwake", out.wstats.fn_suspend_selfwake);
         self.add("fault.fn_suspend_deferred", out.wstats.fn_suspend_deferred);
         self.add("fault.fn_panic", out.wstats.fn_panic);
+        self.add("fault.fn_hang", out.wstats.fn_hang);
         self.add("exec.invocations", out.wstats.invocations);
         self.add("hit.cancel_while_deferred_wake_outstanding", out.wstats.cancel_with_wake_outstanding);
         self.add("hit.wake_fired_after_call_dropped", out.wstats.wake_after_cancel);
